@@ -79,6 +79,14 @@ func (s *scRebal) Configure(w *World) {
 	c.QuiesceBudget = 4*c.RebalanceDelay + 30*time.Second
 	c.AdvEventMax = 5 * time.Second
 	c.Advances = []time.Duration{time.Millisecond, 97 * time.Millisecond, 1013 * time.Millisecond, c.RebalanceDelay - time.Millisecond, c.RebalanceDelay + time.Millisecond}
+	if s.prop == "C11" && t.Draw(3, nil) == 0 {
+		// rollback mitigation with a lagging replica: events wait at the gate when a notification closes the stream
+		c.RM = true
+		c.NNodes, c.NReplicas = 2, 1
+		c.RMInterval = 303 * time.Millisecond
+		c.W.Persist = 5
+		c.Extra["rm"] = "1"
+	}
 	switch s.prop {
 	case "C04r":
 		c.ConsumerMode = "deferred"
@@ -189,3 +197,16 @@ func (s *scRebal) MemberActions(w *World, m *Member) []Action {
 
 func (s *scRebal) MayDrop(w *World, c *Conn) bool  { return false }
 func (s *scRebal) MayStall(w *World, c *Conn) bool { return false }
+
+func (s *scRebal) Actions(w *World) []Action {
+	if w.cfg.W.Persist > 0 {
+		return w.persistActions()
+	}
+	return nil
+}
+
+func (s *scRebal) OnQuiesce(w *World) {
+	if w.cfg.RM {
+		w.persistAll()
+	}
+}
